@@ -1680,6 +1680,9 @@ def convert_lrelu_to_mul_max(op, arch):
     alpha_tens = create_const_tensor(op.name + "_alpha_scalar", [1], alpha_dtype, [scalar], quantization=quantization)
     mul_alpha.add_input_tensor(alpha_tens)
     fm_alpha = ofm.clone(op.name + "_alpha", set_unique=True)
+    if op_shape is not None:
+        # the intermediate tensor has the shape of the ifm, not of a reshaped ofm
+        fm_alpha.set_all_shapes(list(ifm.shape))
     mul_alpha.set_output_tensor(fm_alpha)
     set_shapes(mul_alpha)
     DebugDatabase.add_optimised(op, mul_alpha)
@@ -1688,6 +1691,9 @@ def convert_lrelu_to_mul_max(op, arch):
         relu_op = Operation(Op.Relu, op.name + "_relu")
         relu_op.add_input_tensor(ifm)
         fm_id = ofm.clone(op.name + "_positive_scaled", set_unique=True)
+        if op_shape is not None:
+            # the intermediate tensor has the shape of the ifm, not of a reshaped ofm
+            fm_id.set_all_shapes(list(ifm.shape))
         relu_op.set_output_tensor(fm_id)
         set_shapes(relu_op)
         DebugDatabase.add_optimised(op, relu_op)
@@ -1708,6 +1714,9 @@ def convert_lrelu_to_mul_max(op, arch):
         mul_identity.add_input_tensor(identity_tens)
         # Make sure that fm_id is allocated to a different address than fm_alpha
         fm_id = ofm.clone(op.name + "_id", set_unique=True)
+        if op_shape is not None:
+            # the intermediate tensor has the shape of the ifm, not of a reshaped ofm
+            fm_id.set_all_shapes(list(ifm.shape))
         mul_identity.set_output_tensor(fm_id)
         set_shapes(mul_identity)
         DebugDatabase.add_optimised(op, mul_identity)
